@@ -23,6 +23,8 @@ class Check:
         self.exit_code = 0
         self.deadline = time.time() + float(os.environ.get('VERIF_BUDGET_S', '150' if tier == 'quick' else '900'))
         self.rng = random.Random(seed)
+        # what a check explores is a function of (tier, VERIF_SEED, VERIF_ROUNDS) only - never of how fast the machine is
+        self.rounds = int(os.environ.get('VERIF_ROUNDS', '1'))
         self.max_gate = 6 if tier == 'quick' else 14
     def time_left(self):
         return self.deadline - time.time()
